@@ -180,6 +180,11 @@ def jw_term(T, c):
                                    '(Some [%s])' % ';'.join('(%s,%s)' % (T.hx(k), T.hx(v)) for k, v in f['members'])) for f in c['frames'])
     return '(JwC %s %s %s [%s] %s)' % (wrap, B(c['valid']), T.obytes(c['p']), frames, unw_res(T, c['got']))
 
+def ctx_term(T, c):
+    return '(CtxC %d%%N %d%%N %d%%N %d%%N)' % (c['in'], c['delivered'], c['wrapped'], c['unwrapped'])
+def cc_term(T, c):
+    return '(CcC %s %d %s)' % (cq_term(T, c['c']), c['kind_u'], B(c['nofb_u']))
+
 FAMILIES = {
     # key: (case type, term builder, [(result name, Gallina function, role)], chunk size, what)
     'eq':  ('eq_case', eq_term, [('mis', 'eq_mismatches', 'm'), ('vio', 'eq_violations', 'v'), ('pin', 'eq_pinned_diffs', 'i')], 400,
@@ -201,6 +206,8 @@ FAMILIES = {
     'b64': ('b64_case', b64_term, [('mis', 'b64_mismatches', 'm')], 400, 'Gallina b64enc / b64dec against base64.StdEncoding'),
     'jw':  ('jw_case', jw_term, [('mis', 'jw_mismatches', 'm'), ('vio', 'jw_violations', 'v')], 100,
             'envelope text: Gallina jenc_env = bytes written by wrapMessageInEnvelope; Gallina jdec_env (object split given) = unwrapMessageFromEnvelope'),
+    'ctx': ('ctx_case', ctx_term, [('mis', 'ctx_mismatches', 'm')], 400, 'message context: wrapped message gets the original context, unwrapped message the envelope message context'),
+    'cc':  ('cc_case', cc_term, [('mis', 'cc_mismatches', 'm')], 250, 'Marshal with one of ProtoMarshaler / ProtobufMarshaler(fallback on/off), Unmarshal with another'),
     'u8':  ('u8_case', u8_term, [('mis', 'u8_mismatches', 'm')], 2000, 'utf8_valid (Gallina) against utf8.Valid (Go): boundary sweep + mutated strings'),
 }
 
@@ -305,7 +312,7 @@ def run_once(ctx, res, seed, scale, big, tag):
                 if c.get('msg'): res.nontrivial.add(('cq', c['kind'], c['nofb'], c['ts'], c['v'], c['gen'], c['cfguuid']))
             elif fam == 'rp':
                 if c.get('msg'): res.nontrivial.add(('rp', c['type'], c['res'], c['errtext']))
-            elif fam in ('unw', 'ru', 'nfm', 'u8', 'js', 'b64', 'jw'):
+            elif fam in ('unw', 'ru', 'nfm', 'u8', 'js', 'b64', 'jw', 'ctx', 'cc'):
                 res.nontrivial.add((fam, json.dumps(c, sort_keys=True)))
     if not res.samples:
         res.sample(dict(family='eq', case=unhex_deep(data['eq'][0])))
